@@ -7,6 +7,11 @@ HERE = os.path.dirname(os.path.dirname(os.path.abspath(__file__)))
 PROOF = "proof"
 # id -> (claimed?, level text, level note, technique, design section)   or (False, reason)
 CHECKS = {
+    "C19": (True,
+            "Coq proofs over source-translated signal tables: display/parse round trip for every signal, case-insensitivity for all strings, agreement of the three spellings, Windows-name precedence, POSIX numbers, wait-status decoding for all codes and signals, the --map-signal splitter; model run against the real crates exhaustively over numbers, names in all case patterns and wait statuses.",
+            "Trusted: Coq kernel, translator, harness; nix signal table, i32::from_str, to_ascii_uppercase, ExitStatusExt are modelled (nix table compared exhaustively each run). No axioms.",
+            "Rocq/Coq proof over source-translated tables + exhaustive differential correspondence",
+            "DESIGN.md section 6 C19"),
     "C20": (True,
             "Coq proof, for every file system, start path and listing, that origins() returns exactly the marked "
             "members of the ancestor chain, that types() is exactly the marker table, that the table is the documented one, "
